@@ -648,6 +648,8 @@ func randomKinds(rng *rand.Rand) []string {
 				add("SymSig")
 			case r < 22:
 				add("SymParen1")
+			case r < 26:
+				add("NoParen") // a symbol line that lost its "(": the location line follows
 			default:
 				add("SymPlain")
 			}
@@ -1352,7 +1354,33 @@ func mutateLines(text string, rng *rand.Rand) string {
 	n := 1 + rng.Intn(3)
 	for ; n > 0 && len(lines) > 1; n-- {
 		p := rng.Intn(len(lines))
-		switch rng.Intn(12) {
+		switch rng.Intn(14) {
+		case 12, 13: // a symbol line of the first running goroutine loses its "(" (the
+			// name alone, or followed by other text); its location line is kept
+			h := -1
+			for i, l := range lines {
+				if strings.HasPrefix(l, "goroutine ") && strings.Contains(l, " [running]:") {
+					h = i
+					break
+				}
+			}
+			if h < 0 {
+				break
+			}
+			e := h + 1
+			for e < len(lines) && lines[e] != "" && !strings.HasPrefix(lines[e], "created by ") {
+				e++
+			}
+			if n := (e - h - 1) / 2; n > 0 {
+				k := []int{0, n / 2, n - 1, rng.Intn(n)}[rng.Intn(4)] // first, middle, last, any frame
+				i := h + 1 + 2*k
+				name := lines[i]
+				if j := strings.Index(name, "("); j >= 0 {
+					name = name[:j]
+				}
+				name = strings.NewReplacer("(", "", ")", "").Replace(name)
+				lines[i] = []string{name, name + " [secret-user-text]", "text instead of a symbol", "x"}[rng.Intn(4)]
+			}
 		case 10: // unpair the first running goroutine (drop one of its lines) and shift
 			// the lines of the next goroutine whose header has a "(" by one as well
 			h := -1
